@@ -55,6 +55,37 @@ try:
 except OSError:
     pass
 
+# an absorption spectrum exported and imported inside the same units context
+try:
+    from quantarhei.spectroscopy.abs2 import AbsSpectrum
+    tmpd = tempfile.mkdtemp(prefix="qvc_c18s_")
+    for units in ("int", "1/cm", "eV"):
+        with qr.energy_units("1/cm"):
+            fa = qr.FrequencyAxis(11000.0, 20, 50.0)
+        sp = AbsSpectrum(axis=fa, data=rng.random(20))
+        fn = os.path.join(tmpd, "s.dat")
+        with qr.energy_units(units):
+            sp.save_data(fn)
+            with qr.energy_units("1/cm"):
+                fb = qr.FrequencyAxis(0.0, 20, 1.0)
+            sp2 = AbsSpectrum(axis=fb, data=numpy.zeros(20))
+            sys.stdout = io.StringIO()
+            try:
+                sp2.load_data(fn)
+            finally:
+                sys.stdout = sys.__stdout__
+        with qr.energy_units("int"):
+            if not numpy.allclose(sp2.axis.data, sp.axis.data, rtol=1e-10):
+                bad.append("absorption spectrum exported and imported in units %s: frequency axis differs (ratio %.6g)"
+                           % (units, sp2.axis.data[3] / sp.axis.data[3]))
+        if not numpy.allclose(sp2.data, sp.data):
+            bad.append("absorption spectrum exported and imported in units %s: intensities differ" % units)
+        os.unlink(fn)
+    os.rmdir(tmpd)
+except Exception as e:      # noqa
+    sys.stdout = sys.__stdout__
+    print("spectrum part not run: %s: %s" % (type(e).__name__, e))
+
 # save / load of an operator around a basis context (listed as an open finding in known_findings.json)
 try:
     from quantarhei.qm import Operator
